@@ -214,6 +214,33 @@ func c08Case(rt *rapid.T, rec *vt.Rec) {
 			}())
 		}
 	}
+	// Somebody else asked a moment ago, and hosts that had fallen silent have resumed their keep-alives since: what
+	// counts for THIS request is each host's check-in as of now, not as of the earlier request (a host list kept
+	// from one request to the next goes stale with the first keep-alive).
+	if nHosts+nClients > 1 && rapid.IntRange(0, 3).Draw(rt, "earlierRequest") == 0 {
+		pi := (reqIdx + 1 + rapid.IntRange(0, nHosts+nClients-2).Draw(rt, "earlierRequester")) % (nHosts + nClients)
+		tp := time.Now()
+		_, perr := s.peer(pi, 3, "")
+		logf("earlier request by %s (err=%v)", s.agents[pi].id.name, perr)
+		var resumed []string
+		for _, h := range hosts {
+			if h.Conn != "closed" && rapid.IntRange(0, 2).Draw(rt, "hostResumes") > 0 {
+				s.model.update(s.agents[h.Idx].id.nodeID, nil, 3)
+				if _, err := s.update(h.Idx, nil, 3, false, false); err != nil {
+					fail("host keep-alive: %v", err)
+				}
+				h.age = -time.Since(tp) // (the elapsed time is added back below)
+				resumed = append(resumed, h.Name)
+			}
+		}
+		time.Sleep(time.Duration(rapid.Int64Range(0, int64(4*time.Second)).Draw(rt, "sinceEarlierRequest")))
+		el := time.Since(tp)
+		for _, h := range hosts {
+			h.age += el
+			h.Age = h.age.String()
+		}
+		logf("hosts %v check in again; %s after the earlier request", resumed, el)
+	}
 	// the request
 	legacy := !reqIsHost && rapid.IntRange(0, 2).Draw(rt, "legacyClient") == 0
 	// (kinds the pool does not know - "unknown" is what an agent sends for an undetected node - match no host)
@@ -254,7 +281,11 @@ func c08Case(rt *rapid.T, rec *vt.Rec) {
 			continue
 		}
 		eligible[id] = h
-		if h.Behave == "ack" || h.Behave == "slowack" {
+		behaveMu.Lock()
+		calledBefore := h.calls > 0
+		behaveMu.Unlock()
+		if h.Behave == "ack" || h.Behave == "slowack" || (h.Behave == "lateonce" && calledBefore) {
+			// (a late-once host that the earlier request already reached is prompt now)
 			acks[id] = h
 		}
 	}
